@@ -218,9 +218,10 @@ def run(tier):
     seen_kinds = {}
     for desc, where, nd in list(gql.single_point_edits(schema, single, editor)) + list(doc_level_edits(schema, single)):
         errs = gql.validate(schema, nd)
-        rule = desc.replace("_first", "")
+        rule = desc.replace("_first", "").replace("_abstract", "")
         if not any(e[0] == rule for e in errs):
             continue
+        rule = desc.replace("_first", "")
         seen_kinds[rule] = seen_kinds.get(rule, 0) + 1
         if seen_kinds[rule] <= (4 if tier == "quick" else 12):
             fail_docs.append((desc, where, gql.render_doc(nd)))
@@ -260,7 +261,7 @@ def run(tier):
     for c, r in zip(fail_cases, fres):
         label = {"failure": c["desc"], "at": c["where"], "query": c["text"] if c["missing"] != "query" else "<no file>", "existing_output": c["existing"]}
         distinct.add(json.dumps(label, sort_keys=True))
-        sigs = {"composite_field_without_subselection"} if c["desc"] == "missing_subselection" else set()
+        sigs = {"object_typed_field_without_subselection"} if c["desc"] == "missing_subselection" else set()
         new = sorted(set(r["after"]) - set(r["before"]))
         changed = sorted(k for k in r["before"] if r["after"].get(k) != r["before"][k])
         outcomes["fail_rc_%s" % ("nonzero" if r["rc"] else "zero")] = outcomes.get("fail_rc_%s" % ("nonzero" if r["rc"] else "zero"), 0) + 1
